@@ -162,9 +162,15 @@ func c07Lunar(w *W, y int) {
 // c07FromDate: the time.Time based constructors copy the civil fields of the time value.
 func c07FromDate(w *W) {
 	rng := w.Rng
-	y := 1583 + rng.Intn(8400) // Go's time is proleptic Gregorian: stay where both calendars agree
+	y := 1583 + rng.Intn(8400)
 	if rng.Intn(4) == 0 {
 		y = []int{1583, 1600, 1900, 2000, 2024, 2100, 9998}[rng.Intn(7)]
+	}
+	// Go's time is proleptic Gregorian, but the constructors only copy the fields: before the switch any field
+	// combination valid in both calendars (days 1..28, not the ten dropped days) must be taken over unchanged too
+	early := rng.Intn(4) == 0
+	if early {
+		y = 1 + rng.Intn(1582)
 	}
 	m := 1 + rng.Intn(12)
 	if rng.Intn(3) == 0 {
@@ -174,11 +180,20 @@ func c07FromDate(w *W) {
 	if rng.Intn(3) == 0 {
 		d = ref.LastDayOfMonth(y, m)
 	}
+	if early {
+		d = 1 + rng.Intn(28)
+		if y == 1582 && m == 10 && d > 4 && d < 15 {
+			d = 15
+		}
+	}
 	st := ref.Stamp{Y: y, M: m, D: d, H: rng.Intn(24), Mi: rng.Intn(60), S: rng.Intn(60)}
 	if rng.Intn(5) == 0 {
 		st.H, st.Mi, st.S = 23, 59, 59
 	}
-	tm := time.Date(st.Y, time.Month(st.M), st.D, st.H, st.Mi, st.S, 999, time.Local)
+	// the fields are read in the time's own location, whatever the machine's zone, and a sub-second part never rounds up
+	loc := []*time.Location{time.Local, time.UTC, time.FixedZone("UTC+8", 8*3600), time.FixedZone("UTC-5", -5*3600), time.FixedZone("UTC+5:45", 5*3600+45*60)}[rng.Intn(5)]
+	nanos := []int{999, 0, 499999999, 500000000, 999999999}[rng.Intn(5)]
+	tm := time.Date(st.Y, time.Month(st.M), st.D, st.H, st.Mi, st.S, nanos, loc)
 	key := fmtStamp(st)
 	w.Cur("C07 from time.Time " + key)
 	s := calendar.NewSolarFromDate(tm)
@@ -187,6 +202,9 @@ func c07FromDate(w *W) {
 		w.Violatef("from-date", key, "NewSolarFromDate(%s) = %s, NewLunarFromDate(...).GetSolar() = %s", key, s.ToYmdHms(), l.GetSolar().ToYmdHms())
 	}
 	want := solarOf(st).GetLunar()
+	if a, b := digest1(l), digest1(want); a != b {
+		w.Violatef("from-date", key+"/lunar-digest", "NewLunarFromDate(%s in %s) differs from the conversion of the same civil fields: %s", key, loc, diffDigests(b, a))
+	}
 	if l.GetYear() != want.GetYear() || l.GetMonth() != want.GetMonth() || l.GetDay() != want.GetDay() || l.GetTimeInGanZhi() != want.GetTimeInGanZhi() {
 		w.Violatef("from-date", key+"/lunar", "NewLunarFromDate(%s) = %d-%d-%d, the conversion of the same civil fields is %d-%d-%d", key, l.GetYear(), l.GetMonth(), l.GetDay(), want.GetYear(), want.GetMonth(), want.GetDay())
 	}
